@@ -4,6 +4,7 @@ package flags
 
 import (
 	"strings"
+	"unicode/utf8"
 )
 
 // Windows uses a front slash for both short and long options.  Also it uses
@@ -81,7 +82,11 @@ func splitOption(prefix string, option string, islong bool) (string, string, *st
 		pos = strings.Index(option, sp)
 	}
 
-	if (islong && pos >= 0) || (!islong && pos == 1) {
+	// A short option may only be split right after its (possibly
+	// multi-byte) first character.
+	_, n := utf8.DecodeRuneInString(option)
+
+	if (islong && pos >= 0) || (!islong && pos > 0 && pos == n) {
 		rest := option[pos+1:]
 		return option[:pos], sp, &rest
 	}
